@@ -68,6 +68,11 @@ def build_pool(rng):
         pool["trusted"].append((role, u, t, bool(i % 2)))
     for i in range(6):
         t, u = root_pair(rng)
+        if i % 2 == 0 and isinstance(u.get("signatures"), dict):
+            # well-formed entries that can never count in the root check (raw-format, mis-spelled key ids): nobody may tidy them away in the caller's object
+            data_ = gen.oracle_bytes(u["signed"])
+            u["signatures"][gen.key(8).hex] = gen.raw_entry(gen.key(8), data_)
+            u["signatures"][gen.key(9).hex.upper()] = gen.gpg_entry(gen.key(9), data_, gen.GPG_HDR_TYPICAL)
         if i % 3 == 0:
             boolify(rng, t)         # the trusted root only: the untrusted one's signatures cover its exact bytes
         pool["roots"].append((t, u))
@@ -301,6 +306,9 @@ def run(ck: Check) -> None:
     env0 = dict(os.environ, PYTHONPATH=os.path.dirname(os.path.dirname(os.path.dirname(os.path.abspath(__file__)))))
     digests = {}
     confs = [dict(), dict(PYTHONHASHSEED="7", PYTHONIOENCODING="ascii"), dict(PYTHONHASHSEED="random", LC_ALL="C", CCTV_PREIMPORT="json,decimal,locale,argparse")]
+    envnames = impl.library_env_vars()
+    if envnames:
+        confs.append({n_: "1" for n_ in envnames})
     for c in confs:
         p = subprocess.run([sys.executable, "-m", "cctv.subproc", "verdicts", str(ck.seed), "150"], env={**env0, **c}, cwd="/", stdout=subprocess.PIPE, stderr=subprocess.PIPE, text=True)
         ck.evaluations += 1
